@@ -52,6 +52,17 @@ class _ChildTime:
     def time(self):
         return self.now
 
+    monotonic = perf_counter = time
+
+    def time_ns(self):
+        return int(self.now * 1_000_000_000)
+
+    monotonic_ns = perf_counter_ns = time_ns
+
+    def __getattr__(self, name):
+        import time as _t
+        return getattr(_t, name)
+
     def sleep(self, d):
         self.now += max(d, 0.0)
         if self.fork_in_sleep:
@@ -120,6 +131,8 @@ def child_main(script, path, marker, rfd, wfd, close_fds, inherited=None):
         import time as _t
         ct, cf = _ChildTime(io), _ChildFcntl(io)
         table = {id(_t): ct, id(_t.time): ct.time, id(_t.monotonic): ct.time, id(_t.sleep): ct.sleep,
+                 id(_t.perf_counter): ct.time, id(_t.time_ns): ct.time_ns, id(_t.monotonic_ns): ct.time_ns,
+                 id(_t.perf_counter_ns): ct.time_ns,
                  id(fcntl): cf, id(fcntl.flock): cf.flock, id(fcntl.lockf): cf.lockf}
         for n, v in list(vars(fl).items()):         # by identity, not by name: survives import-style refactors
             if not n.startswith('__') and id(v) in table:
